@@ -1,6 +1,7 @@
 #![allow(dead_code)]
 mod backends;
 mod engine;
+mod faults;
 mod gens;
 mod props;
 mod keypool;
